@@ -655,6 +655,14 @@ func init() {
 	// replay builds real scripts of those kinds); every other script is "not Tokenized".
 	reg("github.com/tokenized/specification/dist/golang/protocol.Deserialize", func(fr *frame, args []value) value {
 		script := args[0].([]value)
+		// a script that starts with OP_FALSE (the real envelope prefix; the harness markers start
+		// with OP_RETURN) is decoded by the real function: harnesses use that for malformed
+		// envelopes, which the real parser must refuse without reaching the protobuf decoder
+		if len(script) > 0 {
+			if b, isB := script[0].(uint8); isB && b == 0x00 {
+				return callSSAnoIntrinsic(fr.i, fr.caller, fr.fn, args)
+			}
+		}
 		marker := []byte("\x6a\x02\xbd\x01VERIF")
 		kind := byte(0)
 		if len(script) >= len(marker)+2 {
